@@ -10,12 +10,13 @@ REQUIRED = ["equatorial2ecliptical", "ecliptical2equatorial", "equatorial2horizo
             "circle_diameter", "straight_line", "Angle.__init__", "Angle.set", "Angle.reduce_deg", "Angle.rad",
             "Angle.to_positive", "Angle.__add__", "Angle.__radd__", "Angle.__sub__", "Angle.__neg__", "Angle.__call__"]
 THEOREMS = ["C05_closed_forms", "C05_ecl_rotation", "C05_ecl_inverse", "C05_hor_rotation", "C05_hor_inverse",
-            "C05_gal_rotation", "C05_gal_inverse", "C05_dot_preserved", "C05_separation", "C05_position_angle"]
+            "C05_gal_rotation", "C05_gal_inverse", "C05_dot_preserved", "C05_separation", "C05_position_angle",
+            "C05_circle_closed_form", "C05_circle_bounds", "C05_circle_geometry"]
 PROOF_TIMEOUT = {"quick": 1500, "thorough": 3000}
 EXHAUSTIVE = False
 MANIFEST = {
     "category": "proof",
-    "text": "T4 (ideal real arithmetic): the regenerated bodies of the six coordinate conversions, angular_separation and relative_position_angle are evaluated symbolically for ALL real angles to exact closed forms, and the closed forms are proved to be rotations of the unit vector (Rx(-/+eps); Ry by the colatitude with Meeus' azimuth convention; the fixed galactic rotation Rz(303)Ry(27.4-90)Rz(-192.25) and its inverse Rz(12.25)Ry(27.4-90)Rz(-123)) for every latitude except the exact poles: each pair mutually inverse as angles, dot products preserved, longitudes in [0,360) / azimuths in (-180,180], latitudes in [-90,90]; separation: cos(theta) = dot product, 0..180, symmetric; position angle negates with the sign of delta-alpha. Binary64 accuracy (1e-9 degree on the sphere, poles, seam, tiny and near-antipodal separations), circle_diameter bounds and straight_line are searched on the implementation against unit-vector references; bit-exact correspondence model vs implementation every run.",
+    "text": "T4 (ideal real arithmetic): the regenerated bodies of the six coordinate conversions, angular_separation and relative_position_angle are evaluated symbolically for ALL real angles to exact closed forms, and the closed forms are proved to be rotations of the unit vector (Rx(-/+eps); Ry by the colatitude with Meeus' azimuth convention; the fixed galactic rotation Rz(303)Ry(27.4-90)Rz(-192.25) and its inverse Rz(12.25)Ry(27.4-90)Rz(-123)) for every latitude except the exact poles: each pair mutually inverse as angles, dot products preserved, longitudes in [0,360) / azimuths in (-180,180], latitudes in [-90,90]; separation: cos(theta) = dot product, 0..180, symmetric; position angle negates with the sign of delta-alpha. Binary64 accuracy (1e-9 degree on the sphere, poles, seam, tiny and near-antipodal separations), circle_diameter: branch selection, closed form and the bounds a <= d <= 2a/sqrt(3) proved for any three separations in 0..180 (planar geometry); straight_line is searched on the implementation against unit-vector references; bit-exact correspondence model vs implementation every run.",
     "technique": "symbolic evaluation of the generated model in the real-number instance (pyrun with characterisation lemmas for the Angle constructor / reduce_deg / to_positive / Angle subtraction / x**2, call-by-value variant for nested arithmetic) + atan2 and rotation algebra on unit vectors (lib/Sphere.v) + bit-exact differential correspondence + property oracle on the sphere",
     "design_ref": "8/C05",
 }
@@ -32,14 +33,14 @@ CLAUSES = {
     "the angle between any two directions is unchanged": "proved exactly [ideal, C05_dot_preserved]; binary64 1e-9 deg searched",
     "angular separation = dot-product value (cos theta = sin d1 sin d2 + cos d1 cos d2 cos da), 0..180, symmetric": "proved [ideal, C05_separation]; binary64 1e-9 deg for 1e-7..179.999 deg searched",
     "relative position angle = cross/dot-product value; antisymmetric": "proved [ideal, C05_position_angle: closed form (wrapped delta-alpha, two cancellation-free forms of x, both = u1.north2), equals Meeus' quotient form for cos d1 > 0, negates with delta-alpha]; binary64 1e-9 deg searched against a 60-digit reference (known finding position-angle-value-near-pole: both bodies within a millidegree of a pole)",
-    "circle_diameter between the largest separation a and 2a/sqrt(3)": "unproved (searched): planar-triangle inequality on the three computed separations, not attempted in Coq",
+    "circle_diameter between the largest separation a and 2a/sqrt(3)": "proved [ideal, C05_circle_closed_form + C05_circle_bounds + C05_circle_geometry: for any three separations in 0..180 (abstracted; their values are C05_separation) the code selects the largest as a, applies a or 2abc/sqrt((a+b+c)(a+b-c)(b+c-a)(a+c-b)) according to a >= sqrt(b^2+c^2), and a <= result <= 2a/sqrt(3)]; binary64 searched",
     "straight_line (angle between the great circles / distance from the great circle)": "unproved (searched against a cross-product reference); correspondence bit-exact",
     "binary64 rounding of all the above": "unproved (searched with the property's tolerances; correspondence is bit-exact with traced libm)",
 }
 
 
 def proof_files(tier):
-    return ["C05_angle.v", "C05_run.v", "C05_ecl.v", "C05_hor.v", "C05_gal.v", "C05_sep.v", "C05.v"]
+    return ["C05_angle.v", "C05_run.v", "C05_ecl.v", "C05_hor.v", "C05_gal.v", "C05_sep.v", "C05_circle.v", "C05.v"]
 
 
 # ----------------------------------------------------------------------------- reference geometry
